@@ -12,8 +12,13 @@ an independent handle, never through the object the writer holds), `ConsoleWrite
 A case is a history of add_writer / remove_writer / write-producing builder calls / flush /
 teardown / owner-side `writer.disconnect()`.  The lines the builder formats are captured by a
 formatter subclass installed with the public `set_formatter` (-> the model's `write` operations,
-as code points, *before* they are encoded); the bytes are captured independently by a tap writer
-(-> the oracle's expected bytes).
+as code points, *before* they are encoded); the bytes are captured independently by a tap writer.
+The *statements* themselves are captured where they enter `write()` (a pass-through override in a
+subclass of the builder): the oracle computes, on its own, the one byte string each statement must
+be delivered as (the statement without trailing blanks + one line ending, UTF-8) and keeps its
+books of expected file contents from those, never from what the writers received.  Statements
+include empty / blank-only ones and ones that carry, inside raw text or comments, characters some
+text APIs take for line boundaries (U+2028, U+2029, U+0085, VT, FF, FS, GS, RS, bare CR / LF).
 """
 from __future__ import annotations
 
@@ -51,6 +56,17 @@ DISK = {"path", "filebin", "filetext"}  # observed by reading the path through a
 REALFILE = ("filebin", "filetext")  # caller-opened file objects over a real file
 USER_BUFFERED = ("bufbin", "buftext") + REALFILE  # user-supplied objects with their own buffer, no tty
 LINE_ENDINGS = ["os", "\\n", "\\r\\n", "\\r", "\n", "\r\n"]
+LE_CHARS = {"os": os.linesep, "\\n": "\n", "\\r\\n": "\r\n", "\\r": "\r", "\n": "\n", "\r\n": "\r\n"}  # the oracle's own table
+
+
+def statement_bytes(statement, le):
+    """The one byte string a statement is to be delivered as: its text without trailing blanks, one line
+    ending, UTF-8 (None: it cannot be encoded, nothing may be delivered).  Computed without the library."""
+    ending = LE_CHARS[le] if le in LE_CHARS else le.encode("utf-8").decode("unicode-escape")
+    try:
+        return (statement.rstrip() + ending).encode("utf-8")
+    except UnicodeEncodeError:
+        return None
 
 
 def run_model_par(lines, jobs=6):
@@ -261,6 +277,10 @@ def do_emit(g, what, arg):
         g.comment(arg)
     elif what == "movec":
         g.move(x=1, comment=arg)
+    elif what == "rapidc":
+        g.rapid(x=2, comment=arg)
+    elif what == "commentargs":
+        g.comment(arg[0], *arg[1:])
     elif what == "tool_on":
         g.tool_on("clockwise", 1000)
     elif what == "tool_off":
@@ -282,7 +302,48 @@ def do_emit(g, what, arg):
 TEXTS = ["héllo ✓", "日本語 \U0001f600", "plain", "é", "tab\tin", "€ 5", "á ß \U0001d11e", ""]
 
 
+# characters that some text APIs (str.splitlines, readline of a text file, editors) take for a line boundary; the builder's
+# comment sanitiser replaces only CR / LF, a raw statement keeps all of them: each is part of the statement's one line
+SEPARATORS = ["\u2028", "\u2029", "\x85", "\x0b", "\x0c", "\x1c", "\x1d", "\x1e", "\n", "\r", "\r\n"]
+BLANKS = ["", "", " ", "   ", "\t", " \t ", "\x0c", "\u2028", "\xa0", "\u3000 ", "\n", "\r\n"]  # statements that are empty / only blanks
+PIECES = ["G1 X1", "M112", "M112 arrêt", "pièce nº 7", "G4 P1", "日本語", "note", "; fin", "(a)", "✓"]
+
+
+def separated_text(rng):
+    """Two to four pieces of text with a boundary-like character between them (sometimes also in front / behind)."""
+    parts = [rng.choice(PIECES) for _ in range(rng.randint(2, 4))]
+    text = parts[0]
+    for p in parts[1:]:
+        text += rng.choice(["", " "]) + rng.choice(SEPARATORS) * rng.choice([1, 1, 1, 2]) + rng.choice(["", " "]) + p
+    r = rng.random()
+    if r < 0.15:
+        text = rng.choice(SEPARATORS) + text
+    elif r < 0.30:
+        text += rng.choice(SEPARATORS)
+    return text
+
+
+def gen_odd_statement(rng):
+    """Statements whose text is empty, only blanks, or holds boundary-like characters - through every way a text reaches write()."""
+    r = rng.random()
+    if r < 0.25:
+        return ["emit", "raw", rng.choice(BLANKS)]
+    if r < 0.50:
+        return ["emit", "raw", separated_text(rng)]
+    if r < 0.72:
+        return ["emit", "comment", separated_text(rng)]
+    if r < 0.78:
+        return ["emit", "comment", rng.choice(BLANKS)]
+    if r < 0.86:
+        return ["emit", "commentargs", [rng.choice(PIECES), separated_text(rng), rng.randint(0, 9)]]
+    if r < 0.93:
+        return ["emit", rng.choice(["movec", "rapidc"]), separated_text(rng)]
+    return ["emit", rng.choice(["movec", "rapidc"]), rng.choice(BLANKS)]
+
+
 def gen_emit(rng):
+    if rng.random() < 0.22:
+        return gen_odd_statement(rng)
     r = rng.random()
     if r < 0.30:
         return ["emit", "comment", rng.choice(TEXTS) + (" %d" % rng.randint(0, 99) if rng.random() < 0.5 else "")]
@@ -335,6 +396,7 @@ class Outcome:
         self.marks = []  # (index of the model record to compare with | None, impl record, op)
         self.problems = []  # oracle messages: (tag, step, text)
         self.lines_to_real = 0
+        self.statements = 0
         self.kinds_used = set()
         self.errors = []
         self.notes = []  # distribution counters: which file-content checks ran / were left to the owner
@@ -361,6 +423,14 @@ def run_history(case, tmp, tag="h", observe_every=True):
             self.seen.append(r)
             return r
 
+    class SpyBuilder(GCodeBuilder):
+        """the real builder; every statement is noted where it enters write() and passed on unchanged"""
+
+        def write(self, statement):
+            statements.append(statement)
+            super().write(statement)
+
+    statements = []
     _quiet()
     out = Outcome()
     kinds = case["kinds"]
@@ -368,7 +438,7 @@ def run_history(case, tmp, tag="h", observe_every=True):
     tap_id = n
     slots = [Slot(i, k, tmp, tag) for i, k in enumerate(kinds)]
     tap = _writer_classes()()
-    g = GCodeBuilder(output=None, print_lines=False, line_endings=case["le"])
+    g = SpyBuilder(output=None, print_lines=False, line_endings=case["le"])
     fmt = HookFormatter()
     fmt.seen = []
     fmt.set_line_endings(case["le"])
@@ -481,7 +551,7 @@ def run_history(case, tmp, tag="h", observe_every=True):
                     closed_path.add(op[1])
                 mi = tok(f"d{op[1]}")
             elif kind == "emit":
-                n_seen, n_tap = len(fmt.seen), len(tap.chunks)
+                n_seen, n_tap, n_stmt = len(fmt.seen), len(tap.chunks), len(statements)
                 try:
                     do_emit(g, op[1], op[2])
                 except core.Infra:
@@ -501,7 +571,17 @@ def run_history(case, tmp, tag="h", observe_every=True):
                         pass
                 if chunks != want:
                     problem("same-bytes", step, f"writers received {chunks!r} for the lines {lines!r} (UTF-8: {want!r})")
-                for b in chunks:
+                # "each statement is delivered exactly once": one delivery per statement that entered write(), and it is
+                # that statement's own line (computed here, not by the library): its text + one line ending, UTF-8
+                stmts = statements[n_stmt:]
+                due = [b for b in (statement_bytes(st, case["le"]) for st in stmts) if b is not None]
+                out.statements += len(stmts)
+                if len(chunks) != len(due):
+                    problem("exactly-once", step, f"the {len(stmts)} statement(s) {stmts!r} reached the writers as {len(chunks)} deliveries {chunks!r}; "
+                                                  f"due: {len(due)} ({due!r})")
+                elif chunks != due:
+                    problem("same-bytes", step, f"the statement(s) {stmts!r} were delivered as {chunks!r}, their lines in UTF-8 are {due!r}")
+                for b in due:  # the books are kept from what is due, not from what arrived
                     for i in registered:
                         if i == tap_id:
                             continue
@@ -651,6 +731,16 @@ def judge(R, case, out, model_text, label, last_only=False):
         R.count("kind:" + k)
     for op in case["ops"]:
         R.count("op:" + op[0] + (":" + op[1] if op[0] == "emit" else ""))
+    for op in case["ops"]:  # the distribution of the odd texts (a generator that stopped producing them is visible)
+        if op[0] == "emit" and isinstance(op[2], (str, list)):
+            text = op[2] if isinstance(op[2], str) else " ".join(str(a) for a in op[2])
+            if not text.strip():
+                R.count("text:empty" if text == "" else "text:blank-only")
+            elif any(ch in text for ch in SEPARATORS[:8]):
+                R.count("text:unicode/control-boundary-char-inside")
+            elif "\n" in text or "\r" in text:
+                R.count("text:cr/lf-inside")
+    R.dist["statements-entering-write"] += out.statements
     for e in out.errors:
         R.count("emit-raised:" + e)
     for note in out.notes:
@@ -726,13 +816,17 @@ CORPUS = [
     # readable from the path through another handle, also a second time, when idle, and after a detach / re-attach
     {"le": "\\n", "kinds": ["filetext", "filebin", "path"], "ops": [["add", 0], ["add", 1], ["add", 2], ["emit", "raw", "G21"], ["emit", "comment", "pièce n° 1 – ünïcödé ✓"], ["emit", "move", 1], ["flush"], ["emit", "comment", "日本語 コメント"], ["emit", "raw", "M400"], ["flush"], ["flush"], ["disc", 0], ["emit", "move", 2], ["flush"], ["teardown"], ["add", 0], ["add", 1], ["emit", "comment", "fin"], ["flush"]]},
     {"le": "\\r\\n", "kinds": ["filebin", "filetext"], "ops": [["add", 1], ["emit", "comment", "€ \U0001f600"], ["remove", 1], ["add", 0], ["emit", "tool_on", None], ["flush"], ["add", 1], ["emit", "rapid", 3], ["flush"], ["teardown"], ["add", 1], ["flush"]]},
+    # one statement = one delivery = one line, whatever its text: a comment with a typographic line separator pasted in, a blank
+    # separator statement, a raw statement with a form feed / a bare LF inside; to a recorder, a path file and text streams
+    {"le": "\\r\\n", "kinds": ["rec", "path", "bytesio"], "ops": [["add", 0], ["add", 1], ["add", 2], ["emit", "comment", "section 1"], ["emit", "comment", "côté A\u2028G28 après"], ["emit", "raw", ""], ["emit", "move", 3], ["flush"], ["emit", "movec", "fin\u2029✓"], ["teardown"]]},
+    {"le": "\\n", "kinds": ["stringio", "filetext", "ttytext"], "ops": [["add", 0], ["add", 1], ["add", 2], ["emit", "raw", "G1 X1\x0cG1 X2"], ["emit", "raw", "   "], ["emit", "raw", "M117 a\x85b\x1ec"], ["emit", "raw", "G0 X1\nG0 X2"], ["emit", "comment", ""], ["flush"], ["emit", "raw", "\t"], ["flush"]]},
     {"le": "\n", "kinds": ["bytesio", "buftext"], "ops": [["add", 0], ["add", 1], ["emit", "comment", "bad \ud800 surrogate"], ["emit", "nan", None], ["bump"], ["emit", "dist", "relative"], ["remove", 0], ["emit", "tool_off", None], ["flush"]]},
 ]
 
 
 def run(R: core.Run):
     R.rule = ("histories of add_writer/remove_writer/write-producing builder calls/flush/teardown/owner disconnect over 1-4 "
-              "writers of 12 kinds (incl. caller-opened text- and binary-mode real files read back from disk) and 6 line-ending settings; non-trivial = at least one line delivered to a non-tap writer "
+              "writers of 12 kinds (incl. caller-opened text- and binary-mode real files read back from disk) and 6 line-ending settings, statement texts incl. empty / blank-only ones and ones with boundary-like characters (U+2028/2029/0085, VT, FF, FS-RS, CR, LF) inside raw text and comments; non-trivial = at least one line delivered to a non-tap writer "
               "and >= 3 operation kinds; distinct by hash")
     R.assumptions = [
         "OS / io.Buffered* buffering is not modelled beyond the `dirty` flag: disk content is compared exactly when the model says "
